@@ -662,8 +662,9 @@ class ViewRepresentation(OperatorPlatform, abc.ABC):
                     self.ops, parsed_ops
                 )
                 if new_ops is not None:
-                    return ExtendNode(
-                        source=self.sources[0],
+                    # add the merged step through the builder again: it may now merge with the step below
+                    # (else the shape of the pipeline depends on steps that were merged away)
+                    return self.sources[0].extend_parsed_(
                         parsed_ops=new_ops,
                         partition_by=partition_by,
                         order_by=order_by,
